@@ -35,7 +35,10 @@ ASSUMPTIONS = [
     "operators or hardware features outside the model make a case inconclusive (counted in the evidence), never a violation",
 ]
 
-APPROX_CODES = {"EXP", "LOG", "SQRT", "RSQRT", "GELU", "LOGISTIC", "TANH", "HARD_SWISH", "LEAKY_RELU", "SOFTMAX", "MEAN", "RESIZE_BILINEAR", "RESIZE_NEAREST_NEIGHBOR", "TRANSPOSE_CONV", "ABS", "PRELU"}
+APPROX_CODES = {"EXP", "LOG", "SQRT", "RSQRT", "GELU", "LOGISTIC", "TANH", "HARD_SWISH", "LEAKY_RELU", "SOFTMAX", "MEAN", "RESIZE_BILINEAR", "TRANSPOSE_CONV", "ABS", "PRELU"}
+# operators that select, move or clamp values (1-Lipschitz in every operand): a one-step deviation of an operand stays a one-step deviation of the result
+SELECTING_CODES = {"RESHAPE", "SQUEEZE", "EXPAND_DIMS", "SLICE", "STRIDED_SLICE", "SPLIT", "SPLIT_V", "CONCATENATION", "PAD", "TRANSPOSE", "PACK", "UNPACK", "TILE", "GATHER", "MAX_POOL_2D",
+                   "RELU", "RELU6", "RELU_N1_TO_1", "MAXIMUM", "MINIMUM", "RESIZE_NEAREST_NEIGHBOR"}
 
 
 def make_inputs(model, seed):
@@ -65,6 +68,35 @@ def is_approx(spec):
     return False
 
 
+def _approx_op(o):
+    if o["code"] in APPROX_CODES:
+        return True
+    if o["code"] != "AVERAGE_POOL_2D":
+        return False
+    # average pool: approximate with padding (listed by the property) and when the stride is wider than the pooling hardware supports - the operator is then
+    # replaced by a convolution whose scale only emulates the division (uint8: one step off on ties); the native unpadded pool is compared exactly
+    fields = (o.get("opts") or {}).get("fields", {})
+    return fields.get("Padding", 1) == 0 or fields.get("StrideW", 1) > 3 or fields.get("StrideH", 1) > 3
+
+
+def output_tolerances(spec):
+    """per model output: 0 (exact class), 1 (an approximate-class operator upstream, only selecting/clamping operators after it) or None (an arithmetic operator consumes
+    a value that may deviate by one step: the deviation can be amplified, nothing is asserted for that output)"""
+    cls = {}  # tensor -> 0 | 1 | None
+    for o in spec["ops"]:
+        ins = [cls.get(i, 0) for i in o["inputs"] if i is not None and i >= 0]
+        worst = None if any(c is None for c in ins) else max(ins + [0])
+        if _approx_op(o):
+            out = 1 if worst == 0 else None
+        elif o["code"] in SELECTING_CODES:
+            out = worst
+        else:
+            out = 0 if worst == 0 else None
+        for t in o["outputs"]:
+            cls[t] = out
+    return [cls.get(t, 0) for t in spec["outputs"]]
+
+
 def reference(src, xs):
     """-> list of admissible reference output lists (one per MUL derivation that changes anything)"""
     sg = src["subgraphs"][0]
@@ -85,10 +117,14 @@ def reference(src, xs):
     return outs
 
 
-def compare(got, want, tol, masks=None):
+def compare(got, want, tols, masks=None, loose=0):
+    """tols: per-output tolerance (None = nothing asserted for that output)"""
     worst = 0
     where = None
     for k, (g, w) in enumerate(zip(got, want)):
+        if tols[k] is None:
+            continue
+        tol = max(tols[k], loose)
         g = np.asarray(g).astype(np.int64).reshape(-1)
         w = np.asarray(w).astype(np.int64).reshape(-1)
         if g.shape != w.shape:
@@ -124,9 +160,16 @@ def oracle(case, rec=None):
             rec.cls("not-compiled")
         return
     src = vmodel.load(fbwrite.build(spec))
-    tol = 1 if is_approx(spec) else 0
+    tols = output_tolerances(spec)
+    if all(t is None for t in tols):
+        if rec is not None:
+            rec.cls("compiled", "inconclusive", "inconclusive: every output lies behind an arithmetic consumer of an approximate-class result")
+        return
+    tol = max(t for t in tols if t is not None)
     if rec is not None:
         rec.cls("compiled", "tolerance-%d" % tol)
+        if any(t is None for t in tols):
+            rec.cls("some-outputs-not-asserted(amplified approximation)")
     if not art.npu_ops:
         if rec is not None:
             rec.cls("no-npu-op")
@@ -159,7 +202,7 @@ def oracle(case, rec=None):
                 raise Violation("C01/undecodable", str(e), case, tags)
             finally:
                 npusim.OPERAND_SCALING = 2
-            worst, where = compare(got, want, max(tol, getattr(reference, "loose", 0)), getattr(reference, "masks", None))
+            worst, where = compare(got, want, tols, getattr(reference, "masks", None), getattr(reference, "loose", 0))
             verdicts.append((worst, where, mode))
             if where is None:
                 if opscale != 2 and rec is not None:
